@@ -11,7 +11,7 @@ For every property:
 """
 import re
 
-from . import v2gen
+from . import v2gen, buildgen
 from .lib import Rng, expr, expr_bytes, expr_len, hx, SIG
 
 FLAGS = re.compile(r" i([01])c([01])$")
@@ -276,7 +276,199 @@ class C17(Prop):
         return None
 
 
-REGISTRY = {c.id: c for c in (C02(), C11(), C14(), C17())}
+def hexs_len(h):
+    if h == "-":
+        return 0
+    if h.startswith("#"):
+        return int(h[1:].split(":")[0])
+    return len(h) // 2
+
+
+def hexs_head(h):
+    """the first bytes of a canonical byte string (all of them when it is short)"""
+    if h == "-":
+        return b""
+    if h.startswith("#"):
+        return bytes.fromhex(h.split(":")[1])
+    return bytes.fromhex(h)
+
+
+def build_case(c, ops):
+    return "build %s %s" % (c, ";".join(ops) if ops else "-")
+
+
+def build_status(line):
+    return line if line.startswith("OK ") else "ERR"
+
+
+class BuilderProp(Prop):
+    def neighbours(self, case, rng):
+        _, c, ops = case.split(" ")
+        ops = [] if ops == "-" else ops.split(";")
+        seen = set()
+        for i in range(len(ops)):
+            for j in range(i + 1, len(ops) + 1):
+                sub = ops[:i] + ops[j:]
+                key = ";".join(sub)
+                if key not in seen:
+                    seen.add(key)
+                    for g in self.groups("neighbourhood", (c, sub), {}):
+                        yield (g[0], g[1], {})
+        for i in range(len(ops) + 1):
+            for extra in ("L=5", "L=-", "R=3", "P=u8:1"):
+                for g in self.groups("neighbourhood", (c, ops[:i] + [extra] + ops[i:]), {}):
+                    yield (g[0], g[1], {})
+
+
+class C10(BuilderProp):
+    id = "C10"
+    projection_name = "out (build result: bytes, or the index of the failing call)"
+    streams = (buildgen.exhaustive_histories, buildgen.random_histories, buildgen.size_boundary, buildgen.parse_round_trip)
+    trusted_extra = ("capacity reservations are modelled as a counter no output depends on; their effect on allocation is not modelled (capacities are kept <= 100000 by the generators)",)
+
+    def groups(self, stream, e, meta):
+        c, ops = e
+        yield ("hist", [build_case(c, ops)])
+        if any(o.startswith("R=") for o in ops) or len(ops) < 8:
+            erased = [o for o in ops if not o.startswith("R=")]
+            extra = []
+            for i, o in enumerate(ops):
+                if i % 2 == 0:
+                    extra.append("R=%d" % (7 * i + 1))
+                extra.append(o)
+            extra.append("R=2")
+            yield ("same", [build_case(c, ops), build_case(c, erased), build_case(c, extra)])
+        if any(o.startswith("B=") for o in ops):
+            flat = []
+            for o in ops:
+                if o.startswith("B="):
+                    flat.extend(["P=" + p for p in o[2:].split("|")] if o != "B=-" else [])
+                else:
+                    flat.append(o)
+            yield ("same", [build_case(c, ops), build_case(c, flat)])
+        elif 2 <= len(ops) <= 8:
+            # the other direction: merge runs of single writes into one batch
+            merged, run_ = [], []
+            for o in ops + ["END"]:
+                if o.startswith("P="):
+                    run_.append(o[2:])
+                else:
+                    if run_:
+                        merged.append("B=" + "|".join(run_))
+                        run_ = []
+                    if o != "END":
+                        merged.append(o)
+            if merged != ops:
+                yield ("same", [build_case(c, ops), build_case(c, merged)])
+
+    def classify(self, case, line):
+        ops = case.split(" ")[2]
+        kinds = "".join(sorted(set(o.split("=")[0][0] for o in ops.split(";")))) if ops != "-" else "none"
+        return "%s ops=%s" % (line.split(" ")[0].split("@")[0], kinds)
+
+    def oracle(self, tag, cases, impl, spec, meta):
+        if any(x == "PANIC" for x in impl):
+            return "the builder panicked"
+        if tag == "hist":
+            if impl[0].startswith("OK "):
+                want = spec[0].split(" ")[1]
+                if impl[0][3:] != want:
+                    return "built bytes differ from the reference encoding of the call sequence: %s vs %s" % (impl[0][3:300], want[:300])
+            return None
+        st = [build_status(x) for x in impl]
+        if any(x != st[0] for x in st):
+            return "histories that differ only in reserve_capacity calls / batching give different outputs: %s" % " || ".join(x[:120] for x in st)
+        return None
+
+
+class C09(BuilderProp):
+    id = "C09"
+    projection_name = "out (build result: bytes incl. the length field, or the index of the failing call)"
+    streams = (buildgen.exhaustive_histories, buildgen.random_histories, buildgen.size_boundary)
+
+    def groups(self, stream, e, meta):
+        c, ops = e
+        yield ("hist", [build_case(c, ops)])
+
+    def classify(self, case, line):
+        ops = case.split(" ")[2].split(";")
+        first_write = next((i for i, o in enumerate(ops) if o[0] in "PBT"), None)
+        sets = [i for i, o in enumerate(ops) if o.startswith("L=")]
+        shape = "noset" if not sets else ("set-after-write" if first_write is not None and sets[-1] > first_write else "set-before-write")
+        return "%s %s" % (line.split(" ")[0].split("@")[0], shape)
+
+    def oracle(self, tag, cases, impl, spec, meta):
+        line = impl[0]
+        if line == "PANIC":
+            return "the builder panicked"
+        ops = cases[0].split(" ")[2]
+        force = None
+        for o in (ops.split(";") if ops != "-" else []):
+            if o.startswith("L="):
+                force = None if o == "L=-" else int(o[2:])
+        sp = kv(spec[0])
+        if line.startswith("OK "):
+            h = line[3:]
+            total, head = hexs_len(h), hexs_head(h)
+            if total < 16:
+                return "built header shorter than the fixed part"
+            field = head[14] * 256 + head[15]
+            want = force if force is not None else total - 16
+            if field != want:
+                return "length field %d, but %s" % (field, ("the explicit length in force is %d" % force) if force is not None
+                                                    else ("%d bytes follow the fixed part" % (total - 16)))
+            if sp["big"] == "1":
+                return "a value above 65535 bytes was accepted"
+        return None
+
+
+class C20(Prop):
+    id = "C20"
+    projection_name = "out (write_to result, bytes appended, to_bytes result)"
+    streams = (buildgen.writer_cases,)
+    assumptions = ("`below its size limit` is read as: writer contents + encoding <= 65551 bytes (DESIGN 2.2)",)
+
+    def groups(self, stream, e, meta):
+        pre, p = e
+        yield ("write", ["write %s %s" % (pre, p)])
+
+    def classify(self, case, line):
+        kind = case.split(" ")[2].split(":")[0]
+        return "%s kind=%s" % (line.split(" ")[0], kind)
+
+    def neighbours(self, case, rng):
+        _, pre, p = case.split(" ")
+        for n in list(range(0, 40)) + list(range(65500, 65560)):
+            yield ("write", ["write %s %s" % ("fill:%d:00" % n if n else "-", p)], {})
+
+    def oracle(self, tag, cases, impl, spec, meta):
+        line = impl[0]
+        if line == "PANIC":
+            return "write_to / to_bytes panicked"
+        pre = expr_len(cases[0].split(" ")[1])
+        m = re.match(r"W=(OK (\d+)|ERR) kept=([01]) app=(\S+) TB=(OK (\S+)|ERR)$", line)
+        if not m:
+            return "unparseable observation"
+        ok, n, kept, app, tb = m.group(1).startswith("OK"), m.group(2), m.group(3), m.group(4), m.group(6)
+        sm = re.match(r"ENC (\S+) big=([01])$", spec[0])
+        enc, big = sm.group(1), sm.group(2) == "1"
+        if kept != "1":
+            return "the bytes already in the writer were altered"
+        if big:
+            if ok or app != "-" or tb is not None:
+                return "a value too large for its 16-bit length was not refused cleanly (%s)" % line[:120]
+            return None
+        if pre + hexs_len(enc) <= 65551:
+            if not ok or int(n) != hexs_len(enc) or app != enc:
+                return "write_to: %s; the encoding is %s (%d bytes)" % (line[:160], enc[:120], hexs_len(enc))
+        elif ok and (int(n) != hexs_len(enc) or app != enc):
+            return "write_to succeeded above the limit but did not append exactly the encoding"
+        if hexs_len(enc) <= 65551 and tb != enc:
+            return "to_bytes gives %s, the encoding is %s" % (str(tb)[:120], enc[:120])
+        return None
+
+
+REGISTRY = {c.id: c for c in (C02(), C09(), C10(), C11(), C14(), C17(), C20())}
 
 
 def get(prop):
